@@ -589,7 +589,7 @@ func (c *apiCase) sweep() {
 
 func runAPI(e *core.Env) {
 	e.Rec.Rule("api: one case = a real api.Server (loopback listener, optional secret path) over 1..3 managed servers, each with its own real collector and (usually) a real credential manager; users with credential and traffic, with credential only, with traffic only, the anonymous user, and users created by POST mid-run; 1..4 rounds of {record sessions from 1..4 goroutines, wait for quiescence, random sequence of GET stats (plain / clear spellings), GET users/{u}}, sweeps over every server and every user, a final clear and a sweep that must read zero. evaluations = judged GET answers; class = (endpoint, query spelling, state, listed users / whether the user's figures differ from the server total)")
-	n := e.N(400, 6000)
+	n := e.N(300, 4000)
 	core.Parallel(e, "api", n, 8, func(i int) {
 		if !core.Watchdog(3*time.Minute, func() { core.Guard(e, "api", i, func() { runAPICase(e, i) }) }) {
 			e.Rec.Inconclusive("watchdog")
